@@ -132,6 +132,7 @@ TUp == /\ IsEv("up")
           IN /\ CanConsume(sa.ns, d)
              /\ nodes' = Consumed(sa.ns, d)
              /\ (r.flush /\ r.out # <<>>) => AllOut(nodes')
+             /\ ReleaseTransmitted(nodes, ns1, sa.ns, nodes')
              /\ ghost' = sa.g
              /\ ts' = r.ts
              /\ QueueStep(r.q, MsgBytes(n, Ev.sq, Ev.ty, Ev.d))
